@@ -42,7 +42,7 @@ def run_one(sid):
 
 
 def main():
-    ids = sys.argv[1:] or sorted(os.listdir(os.path.join(ROOT, 'seeded')))
+    ids = sys.argv[1:] or sorted(d for d in os.listdir(os.path.join(ROOT, 'seeded')) if os.path.isdir(os.path.join(ROOT, 'seeded', d)))
     with ThreadPoolExecutor(max_workers=int(os.environ.get('CAMPAIGN_JOBS', '3'))) as ex:
         for sid, res in ex.map(run_one, ids):
             print('%s: %s' % (sid, res[:260]))
